@@ -71,6 +71,13 @@ Added after independent mutation testing found a gap:
       The reported code/reason are now captured AT THE MOMENT of the notification: inside on_message_callback(None)
       (vlib/wsharness.ClientSide.close_seen), when the read_message() future resolves with None, and -- server -- the
       values on_close itself saw; the "== the peer's when its close frame was processed" clause is asserted on those.
+  M15 ("boundary") _handle_message inflates every frame while the per-message "compressed" flag is set (the
+      `opcode in (0x1, 0x2)` test dropped): after a compressed data message the peer's close payload / ping payload is fed
+      to the inflater -> garbage or no close code, unanswered ping   -> C16.reported_close_code / C16.ping_not_answered, seeds 1-3
+      permessage-deflate is now a generated dimension of the ref and pair parts (peer text messages are sent compressed,
+      Tornado's writes are compressed and decoded with the agreed inflater), label control_frame_after_compressed_message,
+      and part `compressed_then_control_grid` enumerates roles x client styles x deflate on/off x 1-2 messages x 7 control
+      sequences (pings of 1/125 bytes, close payloads of 0 / 2 / 5 / 125 bytes, burst with FIN).
   M14 ("state carried over") WebSocketClientConnection.on_connection_close: read_queue.put_nowait(None) instead of the
       awaited put: with a received message still UNREAD at close time the one-slot queue is full, QueueFull escapes, the
       close notification fires zero times and the teardown is skipped
@@ -320,6 +327,10 @@ ref_case_s = st.fixed_dictionaries({
     # client, read_message() style: the application does not read while the history runs -- received messages stay
     # unread in the connection (0, 1, 2, ... of them) when the close frame / disconnect is processed; "release" reads one
     "lazy_reads": st.booleans(),
+    # permessage-deflate negotiated: the peer's text messages are sent COMPRESSED (RSV1), Tornado's own writes are
+    # compressed too -- the control frames of the history (close with code+reason, pings with payload) then follow
+    # compressed data messages, and control payloads are never compressed
+    "deflate": st.booleans(),
     "bad_reason": st.sampled_from([False] * 9 + [True]),   # peer close frames carry an invalid UTF-8 reason (C15's finding, observed from C16's side)
 })
 
@@ -329,6 +340,7 @@ def run_ref(ctx, case):
     labels = {"ref_" + role}
     out = {"nontrivial": False}
     lazy = role == "client" and not case["callback_mode"] and bool(case.get("lazy_reads"))
+    deflate = bool(case.get("deflate"))
 
     async def scenario():
         loop = asyncio.get_running_loop()
@@ -343,19 +355,20 @@ def run_ref(ctx, case):
             return None
 
         if role == "server":
-            app = H.make_app(rec, behaviour={"on_message": on_message})
-            peer = H.RefClient(app)
-            if not await peer.handshake():
-                return ctx.fail("C16.handshake_failed", {})
+            app = H.make_app(rec, behaviour={"on_message": on_message}, compression={} if deflate else None)
+            peer = H.RefClient(app, ext="permessage-deflate" if deflate else None)
+            if not await peer.handshake() or rec.handler is None:
+                return ctx.fail("C16.handshake_extension_response_invalid" if (peer.error or "").startswith("extension response invalid")
+                                else "C16.handshake_failed", {"error": peer.error})
             h = rec.handler
             side = Side("server", peer.stream, peer.poll, lambda: rec.count("close"), lambda: next(e[1:] for e in rec.events if e[0] == "close"),
                         lambda t: h.write_message(t), lambda d: h.ping(d), lambda c, r: h.close(c, r))
             enc = H.RefEncoder("client")
             got_msgs = rec.messages
         else:
-            cl = H.ClientSide(callback_mode=case["callback_mode"])
+            cl = H.ClientSide(callback_mode=case["callback_mode"], **({"compression_options": {}} if deflate else {}))
             peer = H.RefServer(cl)
-            if await peer.read_request() is None or not await peer.accept():
+            if await peer.read_request() is None or not await peer.accept(ext="permessage-deflate" if deflate else None):
                 return ctx.fail("C16.handshake_failed", {})
             conn = cl.connect_future.result()
             side = Side("client", cl.stream, peer.poll, lambda: sum(1 for m in cl.received if m is None),
@@ -367,6 +380,16 @@ def run_ref(ctx, case):
                 cl.auto_read = False
                 labels.add("client_lazy_reads")
         peer.decoder.control_after_close_ok = True
+        if deflate:
+            if peer.deflate is None:
+                return ctx.fail("C16.deflate_not_negotiated", {"role": role})
+            enc.deflater = peer.deflate.deflater(enc.role)
+            labels.add("deflate_on")
+
+        def text_frame(text):
+            """One text message from the peer: compressed (RSV1) when permessage-deflate was negotiated."""
+            return enc.message(wsref.OP_TEXT, text.encode(), compress=deflate)[0]
+
         fed_texts = []            # text messages fed by the peer while Tornado could still read them
 
         def blocked():
@@ -425,7 +448,9 @@ def run_ref(ctx, case):
                 if fed_close is not None or side.eof or partial:
                     continue
                 text, (code, reason), segs, fin = op[1], op[2], op[3], op[4]
-                data = (enc.frame(wsref.OP_TEXT, text.encode()) if text is not None else b"") + \
+                if deflate and text is not None:
+                    labels.add("control_frame_after_compressed_message")
+                data = (text_frame(text) if text is not None else b"") + \
                     enc.frame(wsref.OP_CLOSE, wsref.close_payload(code, reason or ""))
                 was_blocked = blocked()
                 if text is not None and out["open_at_step_start"]:
@@ -476,6 +501,8 @@ def run_ref(ctx, case):
                     continue
                 code, reason = op[1]
                 payload = wsref.close_payload(code, reason or "")
+                if out.get("last_peer_frame_compressed"):
+                    labels.add("control_frame_after_compressed_message")
                 bad = case["bad_reason"] and code is not None
                 if bad:
                     payload = struct.pack("!H", code) + b"\xff\xfe"
@@ -494,7 +521,8 @@ def run_ref(ctx, case):
                 if side.eof or partial or fed_close is not None:
                     continue
                 n_before = len(got_msgs())
-                frame = enc.frame(wsref.OP_TEXT, op[1].encode())
+                frame = text_frame(op[1])
+                out["last_peer_frame_compressed"] = deflate
                 segs = list(op[2]) if len(op) > 2 else []
                 await peer.send(frame, H.segments(len(frame), segs, cap=len(segs), bulk=1 << 20))
                 if segs:
@@ -531,6 +559,8 @@ def run_ref(ctx, case):
                 if side.eof or partial or fed_close is not None:
                     continue
                 n_pongs = sum(1 for e in peer.poll().events if e[0] == "pong")
+                if out.get("last_peer_frame_compressed"):
+                    labels.add("control_frame_after_compressed_message")
                 await peer.send(enc.frame(wsref.OP_PING, op[1]))
                 cause = "delivery"
                 labels.add("peer_ping_%d" % len(op[1]) if len(op[1]) >= 124 else "peer_ping")
@@ -655,6 +685,7 @@ pair_op_s = st.one_of(
 )
 pair_case_s = st.fixed_dictionaries({
     "callback_mode": st.booleans(),
+    "deflate": st.booleans(),          # both Tornado sides compress: close frames / pings follow compressed messages
     "ops": st.lists(pair_op_s, min_size=1, max_size=16),
 })
 
@@ -666,8 +697,11 @@ def run_pair(ctx, case):
     async def scenario():
         loop = asyncio.get_running_loop()
         rec = H.Recorder()
-        app = H.make_app(rec)
-        pair = H.Pair(app, callback_mode=case["callback_mode"])
+        deflate = bool(case.get("deflate"))
+        app = H.make_app(rec, compression={} if deflate else None)
+        pair = H.Pair(app, callback_mode=case["callback_mode"], client_kw={"compression_options": {}} if deflate else None)
+        if deflate:
+            labels.add("deflate_on")
         if not await pair.connect():
             return ctx.fail("C16.handshake_failed", {})
         f = pair.client.connect_future
@@ -677,8 +711,9 @@ def run_pair(ctx, case):
         wire = pair.wire
         wire.collect()
         head = {"c": len(wire.log_a), "s": len(wire.log_b)}   # HTTP bytes precede the frames in each log
-        decs = {"c": wsref.Decoder(expect_masked=True, control_after_close_ok=True),
-                "s": wsref.Decoder(expect_masked=False, control_after_close_ok=True)}
+        dp = wsref.DeflateParams() if deflate else None     # Tornado's client and server agree on the defaults
+        decs = {"c": wsref.Decoder(expect_masked=True, control_after_close_ok=True, inflater=dp.inflater("client") if dp else None),
+                "s": wsref.Decoder(expect_masked=False, control_after_close_ok=True, inflater=dp.inflater("server") if dp else None)}
         fedlen = {"c": head["c"], "s": head["s"]}
 
         def poll(k):
@@ -847,8 +882,9 @@ def run_ping(ctx, case):
             if case["timeout"] is not None:
                 settings["websocket_ping_timeout"] = case["timeout"]
             peer = H.RefClient(H.make_app(rec, settings=settings))
-            if not await peer.handshake():
-                return ctx.fail("C16.handshake_failed", {})
+            if not await peer.handshake() or rec.handler is None:
+                return ctx.fail("C16.handshake_extension_response_invalid" if (peer.error or "").startswith("extension response invalid")
+                                else "C16.handshake_failed", {"error": peer.error})
             h = rec.handler
             side = Side("server", peer.stream, peer.poll, lambda: rec.count("close"), lambda: next(e[1:] for e in rec.events if e[0] == "close"),
                         lambda t: h.write_message(t), lambda d: h.ping(d), lambda c, r: h.close(c, r))
@@ -1042,13 +1078,37 @@ def unread_grid():
                    "ops": [("peer_msg", "m%d" % i, [6] if i % 2 else []) for i in range(unread)] + ending}
 
 
-PARTS = {"ref": run_ref, "pair": run_pair, "ping": run_ping, "goodbye_grid": run_ref, "unread_grid": run_ref}
+def compressed_then_control_grid():
+    """Deterministic: permessage-deflate negotiated, the peer sends a COMPRESSED text message and right after it a
+    control frame with a payload -- ping (1 / 125 bytes, must come back unchanged) and/or close with code + reason (0, 3,
+    123 bytes; must be echoed and reported) -- both roles, both client styles; also once without deflate for contrast."""
+    controls = [
+        [("peer_ping", b"p"), ("peer_close", (1000, "bye"), [])],
+        [("peer_ping", b"p" * 125), ("peer_close", (None, None), [])],
+        [("peer_close", (1001, "näher"), [])],
+        [("peer_close", (1000, R123), [2])],
+        [("peer_close", (4000, ""), [])],
+        [("burst", "x" * 200, (3000, R123_MULTIBYTE), [], True)],
+        [("write", "reply"), ("peer_ping", b"\x00\xff"), ("peer_close", (3001, "r" * 100), [])],
+    ]
+    for role in ("server", "client"):
+        for cb in (True, False):
+            for deflate in (True, False):
+                for msgs in (["héllo"], ["héllo", "x" * 200]):
+                    for ctl in controls:
+                        yield {"role": role, "async_on_message": False, "callback_mode": cb, "lazy_reads": False, "deflate": deflate,
+                               "bad_reason": False, "ops": [("peer_msg", t, []) for t in msgs] + ctl}
+
+
+PARTS = {"ref": run_ref, "pair": run_pair, "ping": run_ping, "goodbye_grid": run_ref, "unread_grid": run_ref,
+         "compressed_then_control_grid": run_ref}
 
 
 def main(ctx):
     ctx.run_replays(PARTS)
     ctx.enumerate(goodbye_grid(), run_ref, name="goodbye_grid")
     ctx.enumerate(unread_grid(), run_ref, name="unread_grid")
+    ctx.enumerate(compressed_then_control_grid(), run_ref, name="compressed_then_control_grid")
     ctx.explore(ref_case_s, run_ref, ctx.n(2000, 14000), name="ref")
     ctx.explore(pair_case_s, run_pair, ctx.n(1200, 10000), name="pair")
     ctx.explore(ping_case_s, run_ping, ctx.n(800, 6000), name="ping")
